@@ -244,12 +244,18 @@ def run_check(check, tier, seed, replay=None):
                 except Exception:
                     harness_errors.append('judge failed: ' + traceback.format_exc()[-1500:])
                     continue
-                for t in c.get('tags', []):
-                    buckets[t] = buckets.get(t, 0) + 1
+                ctags = set(c.get('tags', []))
+                judged = any(v.status in ('held', 'violated') for v in vs)
+                if judged:
+                    for t in ctags:
+                        buckets[t] = buckets.get(t, 0) + 1
                 for v in vs:
                     stats[v.status] += 1
+                    if v.status not in ('held', 'violated'):
+                        continue
                     for b in v.buckets:
-                        buckets[b] = buckets.get(b, 0) + 1
+                        if b not in ctags:
+                            buckets[b] = buckets.get(b, 0) + 1
                     if v.nt is not None and v.status in ('held', 'violated'):
                         nt.add(v.nt)
                     if v.status == 'violated':
